@@ -1,11 +1,241 @@
+// langeo: C52 — evaluation order and short-circuiting.
+//
+//	langeo <cases.ndjson> <results.ndjson>
+//
+// Each case is one line of the table printed by spec/lang/EvalOrder.tla: a numbered term whose
+// leaves are logging calls, and the log / value / abort the specification's big-step evaluator
+// predicts. The driver renders the term as a Cadence script, runs it on the interpreter and on
+// the bytecode VM, and records the ProgramLog sequence, the outcome class and the value.
+// It makes no judgement.
 package main
 
 import (
+	"encoding/json"
 	"fmt"
 	"os"
+	"runtime"
+	"sort"
+	"strconv"
+	"strings"
+
+	"github.com/onflow/cadence"
 
 	"verifharness/host"
+	"verifharness/util"
 )
+
+type Term struct {
+	O string  `json:"o"`
+	A []*Term `json:"a"`
+	V int     `json:"v"`
+	I int     `json:"i"`
+	P int     `json:"p"`
+}
+
+type Case struct {
+	ID   int    `json:"id"`
+	Term *Term  `json:"term"`
+	Ty   string `json:"ty"`
+}
+
+type Run struct {
+	Engine string `json:"engine"`
+	Class  string `json:"class"`
+	Logs   []int  `json:"logs"`
+	BadLog string `json:"badlog,omitempty"`
+	Value  any    `json:"value"`
+	Err    string `json:"err,omitempty"`
+}
+
+type Result struct {
+	ID      int    `json:"id"`
+	Src     string `json:"src,omitempty"`
+	Expr    string `json:"expr"`
+	Harness string `json:"harness,omitempty"`
+	Runs    []Run  `json:"runs"`
+}
+
+const prelude = `access(all) fun b(_ i: Int, _ v: Bool): Bool { log(i); return v }
+access(all) fun h(_ i: Int, _ p: Int): Int { log(i); return p }
+access(all) fun n(_ i: Int, _ v: Int?): Int? { log(i); return v }
+access(all) fun arr(_ i: Int): [Int] { log(i); return [10, 11, 12] }
+access(all) fun dct(_ i: Int): {Int: Int} { log(i); return {0: 10, 1: 11} }
+access(all) struct S {
+  access(all) let x: Int
+  init(_ x: Int) { self.x = x }
+  access(all) fun m(_ mark: Int, _ a: Int, _ b: Int): Int { log(mark); return self.x + a + b }
+}
+access(all) fun mk(_ i: Int, _ p: Int): S { log(i); return S(p) }
+access(all) fun mko(_ i: Int, _ present: Bool, _ p: Int): S? { log(i); if present { return S(p) }; return nil }
+access(all) fun fn(_ mark: Int, _ a: Int, _ b: Int): Int { log(mark); return a + b }
+access(all) struct W { access(all) var a: [Int]; init() { self.a = [10, 11, 12] } }
+`
+
+var binSym = map[string]string{
+	"add": "+", "sub": "-", "mul": "*", "div": "/", "mod": "%",
+	"lt": "<", "le": "<=", "gt": ">", "ge": ">=", "eq": "==", "ne": "!=",
+	"beq": "==", "bne": "!=", "and": "&&", "or": "||", "coal": "??", "coalO": "??",
+}
+
+func expr(t *Term) string {
+	a := func(i int) string { return expr(t.A[i]) }
+	switch t.O {
+	case "b":
+		return fmt.Sprintf("b(%d, %v)", t.I, t.V == 1)
+	case "h":
+		return fmt.Sprintf("h(%d, %d)", t.I, t.P)
+	case "n":
+		if t.V == 1 {
+			return fmt.Sprintf("n(%d, %d)", t.I, t.P)
+		}
+		return fmt.Sprintf("n(%d, nil)", t.I)
+	case "arr":
+		return fmt.Sprintf("arr(%d)", t.I)
+	case "dct":
+		return fmt.Sprintf("dct(%d)", t.I)
+	case "mk":
+		return fmt.Sprintf("mk(%d, %d)", t.I, t.P)
+	case "mko":
+		return fmt.Sprintf("mko(%d, %v, %d)", t.I, t.V == 1, t.P)
+	case "not":
+		return "(!" + a(0) + ")"
+	case "neg":
+		return "(-" + a(0) + ")"
+	// static casts pin the type of conditional and nil-coalescing results: without them the checker
+	// propagates the expected type of the context (e.g. `Integer` for an index) into the branches
+	case "condB":
+		return "(" + a(0) + " ? " + a(1) + " : " + a(2) + ")"
+	case "condI":
+		return "((" + a(0) + " ? " + a(1) + " : " + a(2) + ") as Int)"
+	case "condO":
+		return "((" + a(0) + " ? " + a(1) + " : " + a(2) + ") as Int?)"
+	case "coal":
+		return "((" + a(0) + " ?? " + a(1) + ") as Int)"
+	case "coalO":
+		return "((" + a(0) + " ?? " + a(1) + ") as Int?)"
+	case "force":
+		return "(" + a(0) + "!)"
+	case "call":
+		return fmt.Sprintf("%s.m(%d, %s, %s)", a(0), 100+t.I, a(1), a(2))
+	case "fcall":
+		return fmt.Sprintf("fn(%d, %s, %s)", 100+t.I, a(0), a(1))
+	case "idx", "didx":
+		return a(0) + "[" + a(1) + "]"
+	case "mem":
+		return a(0) + ".x"
+	case "castfB", "castfI":
+		return "((" + a(0) + " as AnyStruct) as! Int)"
+	case "castqB", "castqI":
+		return "((" + a(0) + " as AnyStruct) as? Int)"
+	case "asO":
+		return "(" + a(0) + " as Int?)"
+	case "ocall":
+		return fmt.Sprintf("%s?.m(%d, %s, %s)", a(0), 100+t.I, a(1), a(2))
+	case "omem":
+		return a(0) + "?.x"
+	case "arrlit":
+		return "[" + a(0) + ", " + a(1) + "]"
+	case "dictlit":
+		return "{" + a(0) + ": " + a(1) + ", " + a(2) + ": " + a(3) + "}"
+	}
+	if s, ok := binSym[t.O]; ok {
+		return "(" + a(0) + " " + s + " " + a(1) + ")"
+	}
+	panic("unknown form " + t.O)
+}
+
+// statement forms: (statement, expression describing the state afterwards)
+func stmt(t *Term) (string, string, bool) {
+	a := func(i int) string { return expr(t.A[i]) }
+	switch t.O {
+	case "asgIdx":
+		return fmt.Sprintf("a[%s] = %s", a(0), a(1)), "a", true
+	case "asgIdx2":
+		return fmt.Sprintf("aa[%s][%s] = %s", a(0), a(1), a(2)), "aa", true
+	case "asgDict":
+		return fmt.Sprintf("d[%s] = %s", a(0), a(1)), "d", true
+	case "asgMemIdx":
+		return fmt.Sprintf("ws[%s].a[%s] = %s", a(0), a(1), a(2)), "[ws[0].a, ws[1].a]", true
+	case "swapIdx":
+		return fmt.Sprintf("a[%s] <-> bb[%s]", a(0), a(1)), "[a, bb]", true
+	case "swapSame":
+		return fmt.Sprintf("a[%s] <-> a[%s]", a(0), a(1)), "a", true
+	case "swapIdx2":
+		return fmt.Sprintf("aa[%s][%s] <-> a[%s]", a(0), a(1), a(2)), "[aa, a]", true
+	case "swapIdx2r":
+		return fmt.Sprintf("a[%s] <-> aa[%s][%s]", a(0), a(1), a(2)), "[a, aa]", true
+	}
+	return "", "", false
+}
+
+var retType = map[string]string{"B": "Bool", "I": "Int", "O": "Int?", "A": "[Int]", "D": "{Int: Int}"}
+
+func render(c *Case) (src, shown string, err string) {
+	defer func() {
+		if r := recover(); r != nil {
+			err = fmt.Sprint(r)
+		}
+	}()
+	if st, state, ok := stmt(c.Term); ok {
+		src = prelude + "access(all) fun main(): AnyStruct {\n" +
+			"  var a = [10, 11, 12]\n  var bb = [20, 21, 22]\n  var aa = [[10, 11], [20, 21]]\n" +
+			"  var d: {Int: Int} = {0: 10, 1: 11}\n  var ws = [W(), W()]\n" +
+			"  " + st + "\n  return " + state + "\n}\n"
+		return src, st, ""
+	}
+	rt, ok := retType[c.Ty]
+	if !ok {
+		return "", "", "no return type for " + c.Ty
+	}
+	e := expr(c.Term)
+	src = prelude + "access(all) fun main(): " + rt + " {\n  return " + e + "\n}\n"
+	return src, e, ""
+}
+
+// norm maps a cadence value onto the JSON shape ToJson gives the specification's values:
+// Bool -> bool, Int -> number, optional -> [] / [v], array -> list, dictionary -> sorted list of [k, v].
+func norm(v cadence.Value) any {
+	switch x := v.(type) {
+	case nil:
+		return nil
+	case cadence.Bool:
+		return bool(x)
+	case cadence.Int:
+		n, _ := strconv.Atoi(x.String())
+		return n
+	case cadence.Optional:
+		if x.Value == nil {
+			return []any{}
+		}
+		return []any{norm(x.Value)}
+	case cadence.Array:
+		out := make([]any, len(x.Values))
+		for i, e := range x.Values {
+			out[i] = norm(e)
+		}
+		return out
+	case cadence.Dictionary:
+		out := make([]any, 0, len(x.Pairs))
+		for _, p := range x.Pairs {
+			out = append(out, []any{norm(p.Key), norm(p.Value)})
+		}
+		sort.Slice(out, func(i, j int) bool {
+			return fmt.Sprint(out[i]) < fmt.Sprint(out[j])
+		})
+		return out
+	}
+	return v.String()
+}
+
+func firstErrLine(e error) string {
+	for _, l := range strings.Split(e.Error(), "\n") {
+		l = strings.TrimSpace(l)
+		if strings.HasPrefix(l, "error:") {
+			return l
+		}
+	}
+	return strings.Split(e.Error(), "\n")[0]
+}
 
 func main() {
 	if len(os.Args) == 3 && os.Args[1] == "-src" {
@@ -17,4 +247,67 @@ func main() {
 		}
 		return
 	}
+	if len(os.Args) < 3 {
+		util.Die("usage: langeo <cases.ndjson> <results.ndjson>")
+	}
+	var cases []*Case
+	err := util.ReadLines(os.Args[1], func(line []byte) error {
+		c := &Case{}
+		if err := json.Unmarshal(line, c); err != nil {
+			return err
+		}
+		cases = append(cases, c)
+		return nil
+	})
+	if err != nil {
+		util.Die("reading cases: %v", err)
+	}
+	withSrc := os.Getenv("LANGEO_SRC") == "1"
+	nw := runtime.NumCPU()
+	worlds := make(chan *host.World, nw)
+	for i := 0; i < nw; i++ {
+		worlds <- host.NewWorld()
+	}
+	results := make([]Result, len(cases))
+	util.Parallel(len(cases), nw, func(i int) {
+		c := cases[i]
+		res := Result{ID: c.ID}
+		src, shown, rerr := render(c)
+		res.Expr = shown
+		if rerr != "" {
+			res.Harness = "render: " + rerr
+			results[i] = res
+			return
+		}
+		if withSrc {
+			res.Src = src
+		}
+		w := <-worlds
+		for _, vm := range []bool{false, true} {
+			r := w.Script(src, vm)
+			run := Run{Engine: map[bool]string{false: "interpreter", true: "vm"}[vm], Class: r.Class}
+			for _, l := range r.Logs {
+				n, err := strconv.Atoi(l)
+				if err != nil {
+					run.BadLog = l
+					continue
+				}
+				run.Logs = append(run.Logs, n)
+			}
+			if r.Err != nil {
+				run.Err = firstErrLine(r.Err)
+			} else {
+				run.Value = norm(r.Value)
+			}
+			res.Runs = append(res.Runs, run)
+		}
+		worlds <- w
+		results[i] = res
+	})
+	out := util.NewOut(os.Args[2])
+	for i := range results {
+		out.Write(&results[i])
+	}
+	out.Write(map[string]any{"summary": true, "cases": len(cases), "engines": 2})
+	out.Close()
 }
